@@ -11,12 +11,16 @@ import (
 // last did 'git fetch --prune', then the objects in that branch may have also
 // been deleted on the server if unreferenced. If some refs are missing on the
 // remote, use a more explicit diff command.
-func calcSkippedRefs(remote string) []string {
+//
+// The second result is true when there are cached refs but none of them is
+// present on the remote any more, in which case nothing may be assumed to
+// have been pushed already.
+func calcSkippedRefs(remote string) ([]string, bool) {
 	cachedRemoteRefs, _ := git.CachedRemoteRefs(remote)
 
 	// Since CachedRemoteRefs() only returns branches, request that
 	// RemoteRefs() ignore tags and also return only branches.
-	actualRemoteRefs, _ := git.RemoteRefs(remote, false)
+	actualRemoteRefs, err := git.RemoteRefs(remote, false)
 
 	// The list of remote refs can be very large, so convert them to
 	// a set for faster lookups in the skip calculation loop.
@@ -34,5 +38,6 @@ func calcSkippedRefs(remote string) []string {
 			skippedRefs = append(skippedRefs, "^"+cachedRef.Sha)
 		}
 	}
-	return skippedRefs
+	allStale := err == nil && len(cachedRemoteRefs) > 0 && len(skippedRefs) == 0
+	return skippedRefs, allStale
 }
